@@ -520,8 +520,8 @@ def conflict_tags(dirs, dotted):
                     occ.append((sp, "dir"))
                     if rel == key + "/__init__.pyi":
                         occ.append((sp, "initpyi"))
-                    if rel == key + "/__init__.py":
-                        occ.append((sp, "initpy"))
+                    if rel == key + "/__init__.py" or (rel.startswith(key + "/__init__.") and rel.endswith((".so", ".pyd")) and "/" not in rel[len(key) + 1 :]):
+                        occ.append((sp, "initpy"))  # a compiled __init__ makes the directory a regular package too
         runtime_sps = {sp for sp, k in occ if k in ("py", "ext", "pyc")}
         if len(runtime_sps) > 1:
             tags.add("same-module-in-two-portions")
